@@ -668,5 +668,19 @@ def r10_shared_args(ctx):
     ctx.floor('R10.10', n, 2)
 
 
-RULES = [('R10.10', r10_shared_args), ('R10.8', r10_exec), ('R10.9', r10_abandoned), ('R10.1', r10_1), ('R10.2', r10_2), ('R10.3', r10_3), ('R10.4', r10_4), ('R10.5', r10_5), ('R10.6', r10_6), ('R10.7', r10_7)]
+def r10_multi_ports(ctx):
+    """Fan-out and fan-in reach every port on every call, also when the MultiPort was built from a one-shot iterable (shared
+    with C11 R11.9): otherwise later sends go to nobody and later receives find nothing."""
+    from . import c11
+    ctx.borrow(lambda c: c11.r11_multi_oneshot(c, 'R11.9'), 'R10.12')
+
+
+def r10_unbounded(ctx):
+    """Every message taken in is delivered once: the pending queue of a port is the parser's deque, which must not be bounded
+    (a maxlen silently drops the oldest undelivered message once senders are that far ahead)."""
+    from . import parsershape
+    parsershape.check_parser_init(ctx, 'R10.11')
+
+
+RULES = [('R10.12', r10_multi_ports), ('R10.11', r10_unbounded), ('R10.10', r10_shared_args), ('R10.8', r10_exec), ('R10.9', r10_abandoned), ('R10.1', r10_1), ('R10.2', r10_2), ('R10.3', r10_3), ('R10.4', r10_4), ('R10.5', r10_5), ('R10.6', r10_6), ('R10.7', r10_7)]
 THOROUGH_RULES = [('R10-backends', r10_backends)]
